@@ -71,8 +71,36 @@ def _wait_scenario(obj, call, later_state, requested):
                 % (box.get('ret'), time.time() - t0))
 
 
+def _wait_sweep(mk, call):
+    """standard trajectories: every awaited-state shape against every end state"""
+    n = 0
+    for state in (None, 'DONE', 'FAILED', ['DONE', 'FAILED'], 'CANCELED'):
+        requested = FINAL if not state else state if isinstance(state, list) else [state]
+        for later in ('DONE', 'FAILED', 'CANCELED'):
+            n += 1
+            obj = mk()
+            r = _wait_scenario(obj, lambda: call(obj, state), later, requested)
+            if r.get('confirmed'):
+                r['input'] = dict(awaited=state, entity_ends_in=later)
+                r['found_by'] = 'bounded native scenario sweep (%d cases)' % n
+                return r
+    return dict(confirmed=False, detail='%d wait scenarios return as they should' % n)
+
+
 @builder('task.py:Task.wait')
 def task_wait(case, rp):
+    if not case.get('model'):
+        from radical.pilot.task import Task
+        def mk():
+            t = object.__new__(Task); t._log = Stub()
+            t._pm = t._tmgr = type('M', (), {})(); t._tmgr._terminate = _Event()
+            t._state = 'AGENT_EXECUTING'
+            return t
+        return _wait_sweep(mk, lambda t, state: t.wait(state, None))
+    return _task_wait_model(case, rp)
+
+
+def _task_wait_model(case, rp):
     from radical.pilot.task import Task
     t = object.__new__(Task)
     t._log = Stub()
@@ -96,6 +124,18 @@ def task_wait(case, rp):
 
 @builder('pilot.py:Pilot.wait')
 def pilot_wait(case, rp):
+    if not case.get('model'):
+        from radical.pilot.pilot import Pilot
+        def mk():
+            p = object.__new__(Pilot); p._log = Stub()
+            p._pm = p._pmgr = type('M', (), {})(); p._pmgr._terminate = _Event()
+            p._state = 'PMGR_ACTIVE'
+            return p
+        return _wait_sweep(mk, lambda p, state: p.wait(state, None))
+    return _pilot_wait_model(case, rp)
+
+
+def _pilot_wait_model(case, rp):
     from radical.pilot.pilot import Pilot
     p = object.__new__(Pilot)
     p._log = Stub()
@@ -574,6 +614,24 @@ def td_verify(case, rp):
             probs, raised = check_verify(rp, d)
             if probs:
                 return dict(confirmed=True, detail='; '.join(probs[:3]), input=d,
+                            found_by='bounded native search (%d cases)' % n)
+    # a description written with a deprecated name must verify to the same
+    # thing as the one written with the current name
+    for dep, new in TD_ALIASES:
+        for val in ([2, 4] if dep in ('cpu_processes', 'cpu_threads', 'gpu_processes',
+                    'lfs_per_process', 'mem_per_process') else ['x']):
+            n += 1
+            a = rp.TaskDescription(from_dict={'executable': '/bin/true', dep: val})
+            b = rp.TaskDescription(from_dict={'executable': '/bin/true', new: val})
+            try:
+                a._verify(); b._verify()
+            except Exception as e:
+                return dict(confirmed=True, detail='verify raised %r for %s=%r' % (e, dep, val), input={dep: val})
+            da, db = a.as_dict(), b.as_dict()
+            diff = {k: (da.get(k), db.get(k)) for k in set(da) | set(db) if da.get(k) != db.get(k)}
+            if diff:
+                return dict(confirmed=True, detail='%s=%r verifies differently from %s=%r: %s'
+                            % (dep, val, new, val, diff), input={dep: val},
                             found_by='bounded native search (%d cases)' % n)
     return dict(confirmed=False, detail='model did not reproduce; %d native '
                 'cases hold' % n)
@@ -1210,8 +1268,13 @@ def exec_fragment(rp, rel, qualname, prefix, env):
     path = os.path.join(os.path.dirname(rp.__file__), rel)
     src = open(path).read()
     tree = ast.parse(src)
-    hit = [n for n in ast.walk(tree) if isinstance(n, ast.stmt) and
-           (ast.get_source_segment(src, n) or '').startswith(prefix)]
+    if prefix.startswith('marker:'):
+        fn = [n for n in ast.walk(tree) if isinstance(n, ast.FunctionDef)
+              and n.name == qualname.split('.')[-1]][0]
+        hit = [n for n in fn.body if prefix[7:] in (ast.get_source_segment(src, n) or '')]
+    else:
+        hit = [n for n in ast.walk(tree) if isinstance(n, ast.stmt) and
+               (ast.get_source_segment(src, n) or '').startswith(prefix)]
     assert len(hit) == 1, 'fragment %r matches %d statements' % (prefix, len(hit))
     lines = src.split('\n')[hit[0].lineno - 1:hit[0].end_lineno]
     code = textwrap.dedent('\n'.join(lines))
@@ -1230,9 +1293,9 @@ def check_blocked(rp):
                        'lfs': 1, 'mem': 2} for i in range(nn)]
                 before = copy.deepcopy(nl)
                 info = AttrDict(cores_per_node=4, gpus_per_node=2, node_list=nl)
-                env = dict(rm_info=info, blocked_cores=bc, blocked_gpus=bg, rpc=rpc, len=len)
+                env = dict(rm_info=info, blocked_cores=bc, blocked_gpus=bg, rpc=rpc, len=len, any=any)
                 exec_fragment(rp, 'agent/resource_manager/base.py', 'ResourceManager._init_from_scratch',
-                              'if blocked_cores or blocked_gpus:', env)
+                              "marker:node['cores'][idx] = rpc.DOWN", env)
                 probs = []
                 for nb, na in zip(before, nl):
                     for i in range(4):
@@ -1258,3 +1321,64 @@ def rm_blocked(case, rp):
         return dict(confirmed=True, detail='blocked marking: ' + '; '.join(probs), input=inp,
                     found_by='the real statement executed natively over %d small cases' % n)
     return dict(confirmed=False, detail='%d blocked-marking cases hold natively' % n)
+
+
+# ------------------------------------------------------------------------------
+# C14: PilotManager._update_pilot / Pilot._update
+#
+def mk_pmgr(rp, pilots):
+    import threading as mt
+    from radical.pilot.pilot_manager import PilotManager
+    from radical.pilot.pilot import Pilot
+    pm = object.__new__(PilotManager)
+    pm._log, pm._prof = Stub(), Stub()
+    pm._pilots_lock = mt.RLock()
+    pm._pilots = dict()
+    pm.cb_log = list()
+    pm.advance = lambda *a, **k: None
+    pm._call_pilot_callbacks = lambda pilot: pm.cb_log.append((pilot.uid, pilot.state))
+    for uid, state in pilots.items():
+        p = object.__new__(Pilot)
+        p._log = Stub(); p._uid = uid; p._state = state
+        p._sub = Stub(); p._pilot_dict = dict(); p._cb_lock = mt.RLock()
+        p._callbacks = {rp.constants.PILOT_STATE: dict()}
+        p._pmgr = pm
+        pm._pilots[uid] = p
+    return pm
+
+
+@builder('pilot_manager.py:PilotManager._update_pilot', 'pilot.py:Pilot._update')
+def update_pilot(case, rp):
+    import itertools
+    vals = rp.states._pilot_state_values
+    states = [s for s in vals if s is not None]
+    n = 0
+    for length in (1, 2, 3):
+        for seq in itertools.product(states, repeat=length):
+            n += 1
+            pm = mk_pmgr(rp, {'p1': 'NEW', 'p2': 'PMGR_ACTIVE'})
+            seen, probs = [], []
+            for s in seq:
+                before = pm._pilots['p1'].state
+                try:
+                    pm._update_pilot({'uid': 'p1', 'state': s, 'type': 'pilot'})
+                    pm._update_pilot({'uid': 'unknown', 'state': s, 'type': 'pilot'})
+                except ValueError:
+                    if not (before == 'DONE' and s in ('FAILED', 'CANCELED')):
+                        probs.append('ValueError for %s -> %s' % (before, s))
+                except Exception as e:
+                    probs.append('raised %r on %s -> %s' % (e, before, s))
+                after = pm._pilots['p1'].state
+                if vals[after] < vals[before]: probs.append('state moved backward %s -> %s' % (before, after))
+                if before in FINAL and after not in FINAL: probs.append('final state %s left for %s' % (before, after))
+            last = -1
+            for uid, st in pm.cb_log:
+                if uid != 'p1': probs.append('callback for %s' % uid)
+                if vals[st] < last: probs.append('callback saw %s after a later state' % st)
+                last = max(last, vals[st])
+            if pm._pilots['p2'].state != 'PMGR_ACTIVE': probs.append('another pilot was changed')
+            if probs:
+                return dict(confirmed=True, detail='; '.join(probs[:3]),
+                            input=dict(notifications=list(seq), start='NEW'),
+                            found_by='exhaustive native enumeration of notification sequences up to length 3 (%d tried)' % n)
+    return dict(confirmed=False, detail='%d notification sequences hold natively' % n)
